@@ -801,7 +801,7 @@ func (c *Ctx) parenPairs(path string, every int) int64 {
 			return fmt.Sprintf("out=%q diag=%s panic=%v crash=%v", r.Out, d, r.Panic != "", r.Crash != "")
 		}
 		if sa, sb := sum(p.a), sum(p.b); sa != sb {
-			c.violation("C01|paren-pair|"+p.rec.Cls+"|differs", p.rec.Key, map[string]interface{}{"mode": "run", "src": cs.Src,
+			c.violation(c.Prop+"|paren-pair|"+p.rec.Cls+"|differs", p.rec.Key, map[string]interface{}{"mode": "run", "src": cs.Src,
 				"detail": fmt.Sprintf("minimal parentheses: %s ; full parentheses: %s", clip(sa, 200), clip(sb, 200))})
 		}
 	})
